@@ -532,6 +532,11 @@ func (c *Client) updateLightClientIfNeededTo(ctx context.Context, height *int64)
 	)
 	if height == nil {
 		l, err = c.lc.Update(ctx, time.Now())
+		if err == nil && l == nil {
+			// Update returns no block when the light client is already at the primary's
+			// latest height: the latest trusted block is the answer.
+			l, err = c.lc.TrustedLightBlock(0)
+		}
 	} else {
 		l, err = c.lc.VerifyLightBlockAtHeight(ctx, *height, time.Now())
 	}
